@@ -115,7 +115,7 @@ func csExplore(c *runCtx, name string, bound int, deadline time.Time, classify c
 			}
 			cmd := exec.Command(os.Args[0], "-test.run", "^TestVerifCSWorker$", "-test.timeout", "0") //nolint:gosec
 			cmd.Env = append(os.Environ(), "VERIF_CS_SCEN="+name, "VERIF_CS_BOUND="+strconv.Itoa(bound), fmt.Sprintf("VERIF_CS_SHARD=%d/%d", sh, shards),
-				"VERIF_CHECK=", "GOMAXPROCS=2", "VERIF_CS_DEADLINE="+strconv.FormatInt(deadline.Unix(), 10))
+				"VERIF_CHECK=", "VERIF_PROP="+c.prop, "GOMAXPROCS=2", "VERIF_CS_DEADLINE="+strconv.FormatInt(deadline.Unix(), 10))
 			cmd.ExtraFiles = []*os.File{pw}
 			var stderr bytes.Buffer
 			cmd.Stderr, cmd.Stdout = &stderr, &stderr
@@ -226,6 +226,7 @@ func csReplay(c *runCtx, raw json.RawMessage) string {
 	if !ok {
 		return "unknown scenario " + doc.Scenario
 	}
+	_ = os.Setenv("VERIF_PROP", c.prop)
 	_, _, failure := zzmc.RunOne(c.t, mk(), doc.Choices)
 
 	return failure
@@ -249,3 +250,7 @@ func init() {
 		vReplayers[p] = anyReplay
 	}
 }
+
+// ownershipJudged: the lockset discipline on the agent's fields is C10's subject; scenarios shared with other
+// properties record it only when they run for C10 (a replay keeps the property of the run that produced it).
+func ownershipJudged() bool { return os.Getenv("VERIF_PROP") == "C10" }
